@@ -28,6 +28,30 @@ class Violation:
                 "outcome": self.outcome, "detail": self.detail, "digest": self.digest, "facts": self.facts}
 
 
+class ExecBase:
+    """Result of one execution: every oracle clause that failed (first per (clause, culprit kind))."""
+
+    def __init__(self):
+        self.violations = []
+        self.digest = None
+        self.events = None
+        self.ops = []
+
+    @property
+    def violation(self):
+        return self.violations[0] if self.violations else None
+
+    def add(self, v):
+        if not any(x.key() == v.key() for x in self.violations):
+            self.violations.append(v)
+
+    def find(self, key):
+        for v in self.violations:
+            if v.key() == tuple(key):
+                return v
+        return None
+
+
 class Stats:
     """Per-worker counters, merged by the driver."""
 
